@@ -524,3 +524,20 @@ class SymOpt(Shape):
     def make(self, mk, name, idx=None):
         from .vals import SOpt
         return SOpt(BoolT().make(mk, name + '.isnone', idx), self.inner.make(mk, name, idx))
+
+
+class ViewOf(Shape):
+    """a bytes value that is a slice of a given byte sequence (e.g. a chunk read from a stream): same
+    array, unknown offset and length"""
+
+    def __init__(self, stream_expr):
+        self.stream_expr = stream_expr
+        self.resolve_arr = None
+
+    def make(self, mk, name, idx=None):
+        from .vals import SBytes
+        arr = self.resolve_arr(mk)
+        off = mk.const(name + '.off', IntS)
+        n = mk.const(name + '.len', IntS)
+        mk.assume(z3.And(off >= 0, n >= 0))
+        return SBytes(arr, off, n)
